@@ -33,8 +33,9 @@ package ipfscluster
 //@   ensures err == nil ==> forall i int, j int :: 0 <= i && i < j && j < len(res) && in(res[j], dom(priority)) ==> in(res[i], dom(priority))
 //@   modifies nothing
 
+// (C04: "a successful pin leaves ... a valid allocation": what pin() stores is what these two return)
 //@ func (c *Cluster) obtainAllocations
-//@   property C03 C10
+//@   property C03 C10 C04
 //@   requires 0 < rplMin && rplMin <= rplMax
 //@   requires disjoint(dom(currentValidMetrics), dom(candidatesMetrics)) && disjoint(dom(currentValidMetrics), dom(priorityMetrics)) && disjoint(dom(candidatesMetrics), dom(priorityMetrics))
 //@   loop 1 (range currentValidMetrics)
@@ -59,8 +60,11 @@ package ipfscluster
 //@ interface Informer.Name()
 //@   modifies nothing
 
+// allocN: how often the allocation step ran (call-history ghost)
+//@ ghost var allocN int
 //@ func (c *Cluster) allocate
-//@   property C03 C10
+//@   property C03 C10 C04
+//@   counts allocN when true
 //@   requires validFactors(rplMin, rplMax)
 //@   loop 1 (range metrics)
 //@     invariant forall p peer.ID :: in(p, dom(currentMetrics)) <==> (!in(p, elems(blacklist)) && in(p, elems(currentAllocs)) && hasMetric(metrics, idx1, p))
@@ -144,7 +148,7 @@ package ipfscluster
 //@   ensures nLogPin == old(nLogPin) && nLogUnpin == old(nLogUnpin)
 //@   loop 1 (range metrics)
 //@     invariant len(peers) == len(metrics) && (forall k int :: 0 <= k && k < idx1 ==> peers[k] == metrics[k].Peer)
-//@   modifies heap(api.Pin), heap([]peer.ID)
+//@   modifies heap(api.Pin), heap([]peer.ID), allocN
 
 // ---- C04: pin / update / unpin change the log of consensus operations exactly as requested ----
 
@@ -169,13 +173,13 @@ package ipfscluster
 //@   ensures [reference-and-origins-copied] nLogPin == old(nLogPin) + 1 ==> lastLogged.Reference == pinset[from].Reference && lastLogged.Origins == pinset[from].Origins
 //@   ensures [returns-logged] nLogPin == old(nLogPin) + 1 ==> res != nil && *res == lastLogged
 //@   ensures [existing-pins-untouched] forall q *api.Pin :: !fresh(q) ==> *q == old(*q)
-//@   modifies nLogPin, lastLogged, heap(api.Pin)
+//@   modifies nLogPin, lastLogged, allocN, heap(api.Pin)
 
 // invariant of the shared pinset, established by every logged pin ([everywhere-empty] below): "-1 means everywhere: empty list"
 //@ spec func pinsetInv() bool = forall x cid.Cid :: haskey(pinset, x) && pinset[x].ReplicationFactorMin == -1 ==> len(pinset[x].Allocations) == 0
 
 //@ func (c *Cluster) pin
-//@   property C04 C03
+//@   property C04 C03 C10
 // "keeps still-healthy current holders": the allocation of an already pinned CID starts from the STORED pin (its
 // allocations are the current holders), with the requested factors, exclusions and user allocations
 //@   at_call Cluster.allocate assert [current-holders-are-the-stored-pins] currentPin == existing && hash == pin.Cid && rplMin == pin.ReplicationFactorMin && rplMax == pin.ReplicationFactorMax && arg_blacklist == blacklist && prioritylist == pin.UserAllocations
@@ -195,8 +199,12 @@ package ipfscluster
 //@   ensures [entry-factors-valid] nLogPin == old(nLogPin) + 1 && !(isRedirect(old(pin.PinOptions), old(pin.Cid)) && len(blacklist) == 0) ==> validFactors(lastLogged.ReplicationFactorMin, lastLogged.ReplicationFactorMax)
 //@   ensures [everywhere-empty] nLogPin == old(nLogPin) + 1 && !(isRedirect(old(pin.PinOptions), old(pin.Cid)) && len(blacklist) == 0) && lastLogged.ReplicationFactorMin == -1 ==> len(lastLogged.Allocations) == 0
 //@   ensures [returns-logged] nLogPin == old(nLogPin) + 1 ==> res != nil && *res == lastLogged
+// only a meta entry is stored without going through the allocation step: any other kind of pin (data, shard, cluster
+// DAG) that arrives without allocations and with a positive replication factor is stored with some (C10: re-pinning
+// hands pins back with their allocations cleared and relies on this)
+//@   ensures [only-meta-entries-skip-allocation] nLogPin == old(nLogPin) + 1 && !(isRedirect(old(pin.PinOptions), old(pin.Cid)) && len(blacklist) == 0) && lastLogged.Type != api.MetaType && lastLogged.ReplicationFactorMin > 0 && len(old(pin.Allocations)) == 0 && len(blacklist) > 0 ==> allocN == old(allocN) + 1
 //@   ensures [other-pins-untouched] forall q *api.Pin :: q != pin && !fresh(q) ==> *q == old(*q)
-//@   modifies nLogPin, lastLogged, heap(api.Pin)
+//@   modifies nLogPin, lastLogged, allocN, heap(api.Pin)
 
 //@ interface IPFSConnector.BlockGet(ctx, c)
 //@   modifies nothing
@@ -360,7 +368,7 @@ package ipfscluster
 //@   ensures [follower-does-nothing] c.config.FollowerMode ==> nLogPin == old(nLogPin)
 //@   ensures [same-cid-same-options] nLogPin == old(nLogPin) + 1 ==> lastLogged.Cid == old(pin.Cid) && optsAsRequested(c, lastLogged.PinOptions, old(pin.PinOptions))
 //@   ensures [other-pins-untouched] forall q *api.Pin :: q != pin && !fresh(q) ==> *q == old(*q)
-//@   modifies nLogPin, lastLogged, heap(api.Pin)
+//@   modifies nLogPin, lastLogged, allocN, heap(api.Pin)
 
 //@ ghost var vacateN int
 //@ ghost var lastVacated peer.ID
@@ -384,7 +392,7 @@ package ipfscluster
 //@     invariant forall j int :: 0 <= j && j < idx1 && in(p, elems(list[j].Allocations)) ==> in(list[j], repinOffered)
 //@     invariant forall q *Cluster :: *q == old(*q)
 //@     invariant forall q *Config :: *q == old(*q)
-//@   modifies nLogPin, lastLogged, repinOffered, heap(api.Pin)
+//@   modifies nLogPin, lastLogged, allocN, repinOffered, heap(api.Pin)
 
 // "an expired pin is unpinned ... and an unexpired pin by none": the sweep only unpins pins whose expiry is before now and for which this peer is closest
 //@ func (c *Cluster) StateSync
@@ -405,7 +413,7 @@ package ipfscluster
 //@   at_call Consensus.RmPeer assert [vacated-before-removal] vacateN == old(vacateN) + 1 && lastVacated == pid && p == pid
 //@   ensures [one-removal] rmPeerN == old(rmPeerN) + 1 && lastRmPeer == pid && vacateN == old(vacateN) + 1
 //@   ensures [never-unpins] nLogUnpin == old(nLogUnpin)
-//@   modifies vacateN, lastVacated, rmPeerN, lastRmPeer, nLogPin, lastLogged, repinOffered, heap(api.Pin)
+//@   modifies vacateN, lastVacated, rmPeerN, lastRmPeer, nLogPin, lastLogged, allocN, repinOffered, heap(api.Pin)
 
 // at most one peer considers itself closest: XOR with the CID's hash is injective, so two different peer hashes never tie
 //@ lemma xor_injective: forall a int, b int, k int :: a != b ==> (a ^ k) != (b ^ k)
@@ -468,7 +476,7 @@ package ipfscluster
 // "a running peer republishes EACH of its metrics (informer metrics and the ping)": run() starts one publishing loop
 // per configured informer - for that informer - and one for the ping
 //@ func (c *Cluster) run
-//@   property C09
+//@   property C09 C18
 //@   ensures [a-publisher-per-informer] forall j int :: 0 <= j && j < len(c.informers) ==> in(c.informers[j], informerPublishers)
 //@   ensures [a-ping-publisher] pingPublishers == old(pingPublishers) + 1
 //@   loop 1 (range c.informers)
@@ -623,7 +631,7 @@ package ipfscluster
 //@   property C04
 //@   requires pinsetInv()
 //@   at_call Cluster.pin assert [as-requested] arg_pin != nil && arg_pin.Cid == h && arg_pin.PinOptions == opts && arg_pin.Type == api.DataType && len(arg_pin.Allocations) == 0 && len(blacklist) == 0
-//@   modifies nLogPin, lastLogged, heap(api.Pin)
+//@   modifies nLogPin, lastLogged, allocN, heap(api.Pin)
 
 //@ interface IPFSConnector.Resolve(ctx, path)
 //@   modifies nothing
@@ -631,8 +639,33 @@ package ipfscluster
 //@   property C04
 //@   requires pinsetInv()
 //@   at_call Cluster.Pin assert [the-resolved-cid-with-the-requested-options] h == ci && arg_opts == opts
-//@   modifies nLogPin, lastLogged, heap(api.Pin)
+//@   modifies nLogPin, lastLogged, allocN, heap(api.Pin)
 //@ func (c *Cluster) UnpinPath
 //@   property C04
 //@   at_call Cluster.Unpin assert [the-resolved-cid] h == ci
 //@   modifies nLogUnpin, lastUnlogged
+
+// ---- C06: the cluster-wide listing: every member of the peerset is asked (a follower asks only itself), a failure to
+// list the peerset is an error, and the listing holds exactly one record per CID somebody reported ----
+//@ func (c *Cluster) globalPinInfoSlice
+//@   property C06
+//@   requires c != nil
+//@   at_call rpc.Client.MultiCall assert [asks-every-member] same(dests, members) && svcName == comp && svcMethod == method && len(ctxs) == len(members)
+//@   ensures [peerset-failure-is-an-error] err == nil ==> len(errs) == len(members)
+//@   ensures [one-record-per-reported-cid] err == nil ==> len(res) == len(fullMap) && forall k cid.Cid :: haskey(fullMap, k) ==> fullMap[k] != nil
+//@   loop 1 (range replies)
+//@     invariant forall k cid.Cid :: haskey(fullMap, k) ==> fullMap[k] != nil
+//@     invariant len(errs) == len(members) && len(replies) == len(members) && len(infos) == 0
+//@   loop 2 (range r)
+//@     invariant forall k cid.Cid :: haskey(fullMap, k) ==> fullMap[k] != nil
+//@     invariant len(errs) == len(members) && len(replies) == len(members) && len(infos) == 0
+//@   loop 3 (range erroredPeers)
+//@     invariant forall k cid.Cid :: haskey(fullMap, k) ==> fullMap[k] != nil
+//@     invariant len(errs) == len(members) && len(infos) == 0
+//@   loop 4 (range fullMap)
+//@     invariant forall k cid.Cid :: haskey(fullMap, k) ==> fullMap[k] != nil
+//@     invariant len(errs) == len(members) && len(infos) == 0
+//@   loop 5 (range fullMap)
+//@     invariant len(infos) == cnt5 && len(errs) == len(members)
+//@     invariant forall k cid.Cid :: haskey(fullMap, k) ==> fullMap[k] != nil
+//@   modifies *
